@@ -1,18 +1,28 @@
 """C19 - bars built from CSV rows and live trades are faithful (DESIGN.md section 4, C19).
 
 CSV: every file of <= 2 (quick) / 3 (thorough) rows over a small row alphabet, in every row order, x 6 encodings (UTF-8/16/32
-with byte-order mark, UTF-8 without) x sort on/off x 5 sources (Binance, Bitstamp with str / deprecated enum period, Yahoo
-with/without adjustment), written to a scratch directory and read back through the real event source.
+with byte-order mark, UTF-8 without) x sort on/off x 6 sources (Binance 1d / 1m, Bitstamp with str / deprecated enum period,
+Yahoo with/without adjustment), written to a scratch directory and read back through the real event source. Besides:
+csv-tz (the six sources with a tzinfo west / east of UTC, the eastern one with a fractional offset), csv-periods (every period
+string of the documented Binance / Bitstamp tables, the deprecated enum, three Yahoo timedeltas, x three time zones),
+csv-zero (zero volume written as 0, 0.0, 0.00, 0.00000000 next to non-zero volumes).
 Bar: every 4-tuple on a 3-level grid either raises InvalidBar or satisfies low <= open, close <= high.
-Trades -> bars: the real RealTimeTradesToBar.main() on the virtual loop with a virtual utc_now; every sequence of <= 5
+Trades -> bars: the real aggregator on the virtual loop with a virtual utc_now, reached three ways: (core)
+basana.core.bar.RealTimeTradesToBar.push_trade, (bitstamp) the subclass of basana.external.bitstamp.exchange fed through
+on_trade_event with TradeEvents whose `when` is the reception time, not the trade's own time, (exchange)
+Exchange.subscribe_to_bar_events end to end (fake websocket, real realtime dispatcher). Timing family: every sequence of <= 5
 (quick) / 6 (thorough) steps, each either a trade at one of 9 offsets of the current window (first / second microsecond,
-middle, last millisecond, its tail, last microsecond, start / middle of the next window, previous window) or "let the window flush".
+middle, last millisecond, its tail, last microsecond, start / middle of the next window, previous window) or "let the window
+flush"; the k-th trade has price (2, 3, 1)[k mod 3] and amount 2^k / 8 (every set of trades has its own sum). Value family:
+every sequence of <= 4 / 5 steps over 3 positions x EVERY price in {1, 2, 3}, or flush. Bar durations 1, 60 and 7 (13) seconds;
+7 and 13 do not divide the start of the run.
 """
 import asyncio
 import codecs
 import collections
 import datetime
 import itertools
+import json
 import os
 import shutil
 import tempfile
@@ -30,17 +40,24 @@ from mc.framework import Result, h64
 from mc.vloop import VLoop
 
 PROPERTY = "C19"
-RULE = ("CSV: case = (source, encoding, sort flag, tuple of rows in file order); trades: case = (bar duration, flush delay, "
-        "skip-first flag, sequence of steps); all cases up to the bounds are executed on the real sources. Distinct = "
-        "distinct cases; non-trivial = at least one bar event was produced.")
+RULE = ("CSV: case = (source, period, time zone, encoding, sort flag, tuple of rows in file order); trades: case = (driver, bar "
+        "duration, flush delay, skip-first flag, sequence of steps with their prices); all cases up to the bounds are executed "
+        "on the real sources. Distinct = distinct cases; non-trivial = at least one bar event was produced.")
 ASSUMPTIONS = [
     "CSV files carry a byte-order mark for UTF-16/32 (without one the file is not self-describing: the API has no "
     "encoding parameter); rows use valid OHLC shapes",
-    "trade timestamps at 8 offsets of a window incl. the last millisecond's tail; pushes are made well before and "
-    "'flush' advances to well after window end + flush delay (the exact flush instant is not part of the property)",
-    "in-order trade = timestamp >= every earlier accepted trade and its window not yet flushed when pushed",
+    "a row's date / time is a wall-clock reading in the source's tzinfo (fixed offsets -3 h, +5:30 h, UTC); events are "
+    "compared as instants, whatever tzinfo they carry; period strings as documented, '1M' left out (the statement does not "
+    "say how long a month is)",
+    "trade timestamps at 9 offsets of a window incl. the last millisecond's tail; pushes are made well before and "
+    "'flush' advances to well after window end + flush delay (the exact flush instant is not part of the property); "
+    "a bar event must not become available earlier than 1 ms before the end of its window (the stamp tolerance)",
+    "in-order trade = timestamp >= every earlier accepted trade, its window not yet flushed when pushed and not older than "
+    "the window in which the aggregator was started; windows are counted from the Unix epoch",
+    "end-to-end driver: fake aiohttp session (worlds/ws.py), virtual time module for basana.core.websockets",
 ]
-BOUNDS = {"quick": dict(max_rows=2, trade_depth=5), "thorough": dict(max_rows=3, trade_depth=6)}
+BOUNDS = {"quick": dict(max_rows=2, trade_depth=5, value_depth=4, exchange_depth=3),
+          "thorough": dict(max_rows=3, trade_depth=6, value_depth=5, exchange_depth=4)}
 EXPLANATION = "bounded exhaustive enumeration of files / trade sequences against the real sources; every case is an implementation run"
 P = bs.Pair("BTC", "USD")
 UTC = datetime.timezone.utc
@@ -68,11 +85,26 @@ def scenarios(tier, seed):
         for enc in ENC:
             for sort in (True, False):
                 out.append(("csv", src, enc, sort))
-    for dur in (1, 60):
+    for src in SOURCES:
+        for tzname in ("utc-3", "utc+5:30"):
+            out.append(("csv-tz", src, tzname))
+        out.append(("csv-zero", src))
+    for fam in ("binance", "bitstamp", "bitstamp-enum", "yahoo", "yahoo-adjust"):
+        out.append(("csv-periods", fam))
+    for dur in (1, 60, 7) + ((13,) if tier == "thorough" else ()):  # 7, 13: windows not aligned with the start of the run
         for fd in ((0, 0.5, 1.5) if dur == 1 else (0, 0.5)):  # 1.5: flush delay longer than the bar itself
             for sf in (False, True):
                 for a0 in ACTS:
-                    out.append(("trades", dur, fd, sf, a0))
+                    out.append(("trades", "core", dur, fd, sf, a0))
+    for fd in (0, 0.5):
+        for sf in (False, True):
+            for a0 in ACTS:
+                out.append(("trades", "bitstamp", 1, fd, sf, a0))
+                out.append(("trades", "exchange", 1, fd, sf, a0))
+    for via in ("core", "bitstamp"):
+        for dur, fd in ((1, 0.5), (7, 0)):
+            for a0 in VAL_ACTS:
+                out.append(("values", via, dur, fd, False, a0))
     return out
 
 
@@ -81,25 +113,55 @@ def row_alphabet():
     return [(ts,) + ohlc + (v,) for ts in TS for ohlc in OHLC for v in VOLS]
 
 
-def make_source(kind, path, sort):
-    if kind == "binance-1d":
-        return bcsv.BarSource(P, path, "1d", sort=sort), datetime.timedelta(days=1)
-    if kind == "binance-1m":
-        return bcsv.BarSource(P, path, "1m", sort=sort), datetime.timedelta(minutes=1)
-    if kind == "bitstamp-1d":
-        return scsv.BarSource(P, path, "1d", sort=sort), datetime.timedelta(days=1)
-    if kind == "bitstamp-enum-day":
-        return scsv.BarSource(P, path, scsv_bars.BarPeriod.DAY, sort=sort), datetime.timedelta(days=1)
-    if kind == "yahoo":
-        return ybars.CSVBarSource(P, path, sort=sort, tzinfo=UTC), datetime.timedelta(hours=24)
-    return ybars.CSVBarSource(P, path, adjust_ohlc=True, sort=sort, tzinfo=UTC), datetime.timedelta(hours=24)
+# period strings of the two documented tables (written out here, independent of the implementation's tables); "1M" is left
+# out: the statement does not say how long a month is
+PERIOD_SECONDS = {"1s": 1, "1m": 60, "3m": 180, "5m": 300, "15m": 900, "30m": 1800, "1h": 3600, "2h": 7200, "4h": 14400,
+                  "6h": 21600, "8h": 28800, "12h": 43200, "1d": 86400, "3d": 259200, "1w": 604800,
+                  "min": 60, "hour": 3600, "day": 86400, "MINUTE": 60, "HOUR": 3600, "DAY": 86400}
+BINANCE_PERIODS = ("1s", "1m", "3m", "5m", "15m", "30m", "1h", "2h", "4h", "6h", "8h", "12h", "1d", "3d", "1w")
+BITSTAMP_PERIODS = ("min", "hour", "day", "1m", "3m", "5m", "15m", "30m", "1h", "2h", "4h", "6h", "12h", "1d", "3d")
+BITSTAMP_ENUM_PERIODS = ("MINUTE", "HOUR", "DAY")
+YAHOO_TIMEDELTAS = (None, 23400, 604800)  # default (24 h), a 6.5 h session, a week
+TZS = {"utc": UTC, "utc-3": datetime.timezone(datetime.timedelta(hours=-3)),
+       "utc+5:30": datetime.timezone(datetime.timedelta(hours=5, minutes=30))}
 
 
-def csv_text(kind, rows):
-    if kind.startswith("yahoo"):
+def spec_of(kind, tzname="utc"):
+    """kind: one of SOURCES or 'family:period' -> (family, period / yahoo timedelta in seconds, time zone name)."""
+    if ":" in kind:
+        fam, per = kind.split(":")
+        if fam.startswith("yahoo"):
+            per = None if per == "None" else int(per)
+        return (fam, per, tzname)
+    return {"binance-1d": ("binance", "1d", tzname), "binance-1m": ("binance", "1m", tzname),
+            "bitstamp-1d": ("bitstamp", "1d", tzname), "bitstamp-enum-day": ("bitstamp-enum", "DAY", tzname),
+            "yahoo": ("yahoo", None, tzname), "yahoo-adjust": ("yahoo-adjust", None, tzname)}[kind]
+
+
+def make_source(spec, path, sort):
+    fam, per, tzname = spec
+    # the default time zone of the Binance / Bitstamp sources is UTC: "utc" leaves the argument out
+    kw = {} if tzname == "utc" else {"tzinfo": TZS[tzname]}
+    if fam == "binance":
+        return bcsv.BarSource(P, path, per, sort=sort, **kw), datetime.timedelta(seconds=PERIOD_SECONDS[per])
+    if fam == "bitstamp":
+        return scsv.BarSource(P, path, per, sort=sort, **kw), datetime.timedelta(seconds=PERIOD_SECONDS[per])
+    if fam == "bitstamp-enum":
+        return (scsv.BarSource(P, path, getattr(scsv_bars.BarPeriod, per), sort=sort, **kw),
+                datetime.timedelta(seconds=PERIOD_SECONDS[per]))
+    kw = {"tzinfo": TZS[tzname]}  # Yahoo's default is the machine's local zone
+    if per is not None:
+        kw["timedelta"] = datetime.timedelta(seconds=per)
+    if fam == "yahoo-adjust":
+        kw["adjust_ohlc"] = True
+    return ybars.CSVBarSource(P, path, sort=sort, **kw), datetime.timedelta(seconds=86400 if per is None else per)
+
+
+def csv_text(fam, rows):
+    if fam.startswith("yahoo"):
         lines = ["Date,Open,High,Low,Close,Volume,Adj Close"]
         for ts, o, h, lo, c, v in rows:
-            adj = c if kind == "yahoo" else str(D(c) / 2)
+            adj = c if fam == "yahoo" else str(D(c) / 2)
             lines.append(",".join((ts[:10], o, h, lo, c, v, adj)))
     else:
         lines = ["datetime,open,high,low,close,volume"]
@@ -108,14 +170,20 @@ def csv_text(kind, rows):
     return "\n".join(lines) + "\n"
 
 
-def csv_case(kind, encname, sort, rows, tmpdir):
+def utc_instant(x):
+    return x.astimezone(UTC) if x.tzinfo is not None else x
+
+
+def csv_case(kind, encname, sort, rows, tmpdir, tzname="utc"):
+    spec = spec_of(kind, tzname)
+    fam = spec[0]
     enc, bom = ENC[encname]
     path = os.path.join(tmpdir, "f.csv")
     with open(path, "wb") as f:
-        f.write(bom + csv_text(kind, rows).encode(enc))
+        f.write(bom + csv_text(fam, rows).encode(enc))
     bad = []
     try:
-        src, period = make_source(kind, path, sort)
+        src, period = make_source(spec, path, sort)
         call(src.initialize())
         evs = []
         while (e := src.pop()) is not None:
@@ -123,32 +191,36 @@ def csv_case(kind, encname, sort, rows, tmpdir):
         call(src.finalize())
     except Exception as x:  # noqa
         return [("csv-exception", f"{type(x).__name__}: {x}")], 0
-    yahoo = kind.startswith("yahoo")
+    yahoo = fam.startswith("yahoo")
     fmt = "%Y-%m-%d" if yahoo else "%Y-%m-%d %H:%M:%S"
+    tz = TZS[tzname]
 
     def want_row(r):
         ts, o, h, lo, c, v = r
-        when = datetime.datetime.strptime(ts[:10] if yahoo else ts, fmt).replace(tzinfo=UTC)
+        # the row's date / time is a wall-clock reading in the source's time zone; compared as instants
+        when = datetime.datetime.strptime(ts[:10] if yahoo else ts, fmt).replace(tzinfo=tz).astimezone(UTC)
         vals = [D(o), D(h), D(lo), D(c)]
-        if kind == "yahoo-adjust":
+        if fam == "yahoo-adjust":
             f = (D(c) / 2) / D(c)
             vals = [D(o) * f, D(h) * f, D(lo) * f, D(c) / 2]
         return (when, when + period) + tuple(vals) + (D(v),)
     want = [want_row(r) for r in rows if yahoo or D(r[5]) != 0]
-    got = [(e.bar.datetime, e.when, e.bar.open, e.bar.high, e.bar.low, e.bar.close, e.bar.volume) for e in evs]
+    got = [(utc_instant(e.bar.datetime), utc_instant(e.when), e.bar.open, e.bar.high, e.bar.low, e.bar.close, e.bar.volume)
+           for e in evs]
     for g in got:
         if not (g[4] <= g[2] <= g[3] and g[4] <= g[5] <= g[3]):
             bad.append(("bar-invariant", f"bar {g[2:6]} violates low <= open, close <= high"))
-        if g[0].tzinfo is None or g[0].utcoffset() != datetime.timedelta(0):
-            bad.append(("csv-timezone", f"bar datetime {g[0]!r}"))
+        if g[0].tzinfo is None or g[1].tzinfo is None:
+            bad.append(("csv-timezone", f"bar datetime {g[0]!r} / event time {g[1]!r} without time zone"))
+            return bad, len(got)
     if sort:
         if sorted(got, key=repr) != sorted(want, key=repr):
-            bad.append(("csv-rows-vs-events", f"events {got} for rows {rows}"))
+            bad.append(("csv-rows-vs-events", f"events {got} for rows {rows} (time zone {tzname}, period {period})"))
         whens = [g[1] for g in got]
         if whens != sorted(whens):
             bad.append(("csv-not-sorted", f"event times {whens}"))
     elif got != want:
-        bad.append(("csv-rows-vs-events", f"events {got} for rows {rows}"))
+        bad.append(("csv-rows-vs-events", f"events {got} for rows {rows} (time zone {tzname}, period {period})"))
     return bad, len(got)
 
 
@@ -180,6 +252,66 @@ def run_csv(sc, tier, res):
         shutil.rmtree(tmpdir, ignore_errors=True)
 
 
+ZERO_VOLS = ("0", "0.0", "0.00", "0.00000000", "1.5", "0.00000001")
+
+
+def run_csv_extra(sc, tier, res):
+    """Constructor arguments that decide the bar's start and its period, and the ways of writing a zero volume:
+      csv-tz       the six standard sources x a time zone west / east of UTC (fractional offset) x {utf-8, utf-16} x sort x every
+                   file of <= 2 rows over 12 rows;
+      csv-periods  every period string of the documented tables (Binance, Bitstamp, the deprecated Bitstamp enum) and three
+                   Yahoo timedeltas x three time zones x sort x every file of <= 1 row (+ all 2-row files for the first and
+                   last period) over 6 rows;
+      csv-zero     the six standard sources x sort x every file of <= 2 rows over 3 timestamps x 6 spellings of the volume
+                   (0, 0.0, 0.00, 0.00000000 and two non-zero ones)."""
+    tmpdir = tempfile.mkdtemp(prefix="c19csv", dir="/dev/shm" if os.path.isdir("/dev/shm") else None)
+    try:
+        cases = []  # (kind, tzname, encname, sort, rows)
+        small = [(ts,) + ohlc + (v,) for ts in TS for ohlc in (OHLC[0], OHLC[1]) for v in ("0", "1.5")]
+        if sc[0] == "csv-tz":
+            _, kind, tzname = sc
+            for encname in ("utf-8", "utf-16-le+bom"):
+                for sort in (True, False):
+                    for k in range(0, 3):
+                        for rows in itertools.product(small, repeat=k):
+                            cases.append((kind, tzname, encname, sort, rows))
+        elif sc[0] == "csv-periods":
+            _, fam = sc
+            periods = {"binance": BINANCE_PERIODS, "bitstamp": BITSTAMP_PERIODS, "bitstamp-enum": BITSTAMP_ENUM_PERIODS,
+                       "yahoo": YAHOO_TIMEDELTAS, "yahoo-adjust": YAHOO_TIMEDELTAS}[fam]
+            tiny = [r for r in small if r[1:5] == OHLC[0]]
+            for n, per in enumerate(periods):
+                for tzname in TZS:
+                    for sort in (True, False):
+                        for k in range(0, 3 if n in (0, len(periods) - 1) else 2):
+                            for rows in itertools.product(tiny, repeat=k):
+                                cases.append((f"{fam}:{per}", tzname, "utf-8", sort, rows))
+        else:
+            _, kind = sc
+            zrows = [(ts,) + OHLC[0] + (v,) for ts in TS for v in ZERO_VOLS]
+            for sort in (True, False):
+                for k in range(0, 3):
+                    for rows in itertools.product(zrows, repeat=k):
+                        cases.append((kind, "utc", "utf-8", sort, rows))
+        for kind, tzname, encname, sort, rows in cases:
+            bad, n = csv_case(kind, encname, sort, rows, tmpdir, tzname)
+            res.executions += 1
+            res.transitions += len(rows) + 1
+            res.validated += 1
+            key = h64((sc, kind, tzname, encname, sort, rows))
+            res.states.add(key)
+            if n:
+                res.nontrivial.add(key)
+            res.outcomes[f"{sc[0]}:{min(n, 2)} events"] += 1
+            case = dict(kind="csv", source=kind, encoding=encname, sort=sort, rows=[list(r) for r in rows], tz=tzname)
+            if not res.samples and n >= 1:
+                res.samples.append(case)
+            for clause, detail in bad:
+                res.violation(f"{PROPERTY}:{clause}:{kind.split('-')[0].split(':')[0]}", f"{detail}; {case}", case, size=len(rows))
+    finally:
+        shutil.rmtree(tmpdir, ignore_errors=True)
+
+
 def run_bar_ctor(res):
     g = [D(1), D(2), D(3)]
     for o, h, lo, c in itertools.product(g, repeat=4):
@@ -205,9 +337,14 @@ def run_bar_ctor(res):
 
 # ---- trades -> bars ---------------------------------------------------------------------------------------------------
 EPOCH = datetime.datetime(2020, 1, 1, 0, 0, 0, tzinfo=UTC)
+EPOCH_TS = 1577836800  # EPOCH as a Unix timestamp (EPOCH_TS % 7 == 1: 7-second windows are NOT aligned with the start)
 US = datetime.timedelta(microseconds=1)
 ACTS = ("b", "b1", "mid", "e_ms", "tail", "e_us", "next", "next_mid", "prev", "FLUSH")
+VAL_ACTS = ("mid", "e_us", "next", "FLUSH")  # the value family: fewer positions, every price
+PRICES = (1, 2, 3)
+CYCLE = (2, 3, 1)  # the timing family: price of the k-th push (non-monotone: the maximum is neither first nor last)
 START_OFF = 0.25
+VIAS = ("core", "bitstamp", "exchange")
 
 
 def offsets(dur):
@@ -215,138 +352,251 @@ def offsets(dur):
     return {"b": 0, "b1": 1, "mid": n // 2, "e_ms": n - 1000, "tail": n - 999, "e_us": n - 1, "next": n, "next_mid": n + n // 2, "prev": -1}
 
 
-def run_trades(dur, flush_delay, skip_first, actions):
+def amount_of(k):
+    """Amount of the k-th push: powers of two, so that every set of trades has its own sum."""
+    return D(2) ** k / 8
+
+
+def step_parts(step, k):
+    """A step is a position symbol (price from CYCLE) or 'symbol:price'."""
+    if ":" in step:
+        a, p = step.split(":")
+        return a, D(p)
+    return step, D(CYCLE[k % len(CYCLE)])
+
+
+def trade_json(k, ts_us, price, amount):
+    return {"id": k + 1, "amount_str": str(amount), "price_str": str(price), "type": 0, "microtimestamp": str(ts_us),
+            "buy_order_id": 1, "sell_order_id": 2, "amount": float(amount), "price": float(price)}
+
+
+def run_trades(via, dur, flush_delay, skip_first, actions):
+    """via = 'core': basana.core.bar.RealTimeTradesToBar.push_trade; 'bitstamp': the subclass of the Bitstamp exchange module
+    fed through on_trade_event with TradeEvents whose `when` is the (virtual) reception time, not the trade's own time;
+    'exchange': Exchange.subscribe_to_bar_events end to end (fake websocket -> trade source -> real realtime dispatcher ->
+    aggregator -> dispatcher -> bar handler).
+    Returns pushed [(timestamp in us since the Unix epoch, price, amount, loop time of the push)], bars [(loop time at
+    which the event became available, event)], errors, outcome."""
     loop = VLoop()
     loop._vtime = START_OFF  # start in the middle of a window
     saved = bdt.utc_now
     bdt.utc_now = lambda: EPOCH + datetime.timedelta(seconds=loop.time())
-    src = cbar.RealTimeTradesToBar(P, dur, skip_first_bar=skip_first, flush_delay=flush_delay)
     errors = []
-    src.on_error = lambda e: errors.append(str(getattr(e, "message", e))[:40])
     pushed = []
+    avail = []
     off = offsets(dur)
     holder = {}
-
-    async def driver():
-        price = 0
-        for a in actions:
-            now = loop.time()
-            w = int(now // dur)
-            if a == "FLUSH":
-                t_flush = (w + 1) * dur + flush_delay + 0.005  # well after the flush, whatever the window-end constant
-                if t_flush <= now + 0.006:
-                    t_flush += dur
-                await asyncio.sleep(t_flush - now)
-            else:
-                price += 1
-                ts = EPOCH + datetime.timedelta(seconds=w * dur) + off[a] * US
-                src.push_trade(ts, D(price), D(1))
-                pushed.append((ts, D(price), now))
-                await asyncio.sleep(0.01)
-        await asyncio.sleep(2 * dur + flush_delay + 0.01)
-        holder["mt"].cancel()
-
-    async def main():
-        holder["mt"] = asyncio.ensure_future(src.main())
-        await driver()
-        try:
-            await holder["mt"]
-        except asyncio.CancelledError:
-            pass
-    out = "ok"
+    patched = []
     try:
-        t = loop.run(main(), horizon=100000)
-        if t.exception() is not None:
-            out = "raised:" + type(t.exception()).__name__
-    except Exception as x:  # noqa
-        out = type(x).__name__
+        if via == "exchange":
+            from basana.core import websockets as cws
+            from basana.external.bitstamp import exchange as sx, trades as strades
+            from mc.vtime import VirtualTime
+            from worlds.ws import Env, FakeSession
+            if getattr(cws, "time", None) is not None:
+                patched.append((cws, "time", cws.time))
+                cws.time = VirtualTime(lambda: EPOCH_TS + loop.time())
+            env = Env(loop)
+            d = bs.realtime_dispatcher(max_concurrent=5)
+            ex = sx.Exchange(d, session=FakeSession(env))
+
+            async def on_bar(ev):
+                avail.append((loop.time(), ev))
+            ex.subscribe_to_bar_events(P, dur, on_bar, skip_first_bar=skip_first, flush_delay=flush_delay)
+            channel = strades.get_public_channel(P)
+            src = None
+        else:
+            if via == "bitstamp":
+                from basana.external.bitstamp import exchange as sx, trades as strades
+                src = sx.RealTimeTradesToBar(P, dur, skip_first_bar=skip_first, flush_delay=flush_delay)
+            else:
+                src = cbar.RealTimeTradesToBar(P, dur, skip_first_bar=skip_first, flush_delay=flush_delay)
+            src.on_error = lambda e: errors.append(str(getattr(e, "message", e))[:40])
+            orig_push = src.push
+
+            def recording_push(ev):
+                avail.append((loop.time(), ev))
+                return orig_push(ev)
+            src.push = recording_push
+
+        async def driver():
+            if via == "exchange":
+                await asyncio.sleep(0.005)  # the websocket connects and subscribes
+            k = 0
+            for step in actions:
+                now = loop.time()
+                w = int((EPOCH_TS + now) // dur)  # index of the current window, windows counted from the Unix epoch
+                a, price = step_parts(step, k)
+                if a == "FLUSH":
+                    t_flush = (w + 1) * dur - EPOCH_TS + flush_delay + 0.005  # well after the flush, whatever the window-end constant
+                    if t_flush <= now + 0.006:
+                        t_flush += dur
+                    await asyncio.sleep(t_flush - now)
+                else:
+                    ts_us = w * dur * 1_000_000 + off[a]
+                    amount = amount_of(k)
+                    if via == "core":
+                        src.push_trade(EPOCH + (ts_us - EPOCH_TS * 1_000_000) * US, price, amount)
+                    elif via == "bitstamp":
+                        await src.on_trade_event(strades.TradeEvent(bdt.utc_now(), strades.Trade(P, trade_json(k, ts_us, price, amount))))
+                    else:
+                        ws = env.live()
+                        if ws is None:
+                            errors.append("no live websocket")
+                        else:
+                            ws.deliver("text", json.dumps({"event": "trade", "channel": channel,
+                                                           "data": trade_json(k, ts_us, price, amount)}))
+                    pushed.append((ts_us, price, amount, now))
+                    k += 1
+                    await asyncio.sleep(0.01)
+            await asyncio.sleep(2 * dur + flush_delay + 0.01)
+            if via == "exchange":
+                d.stop()
+            else:
+                holder["mt"].cancel()
+
+        async def main():
+            if via == "exchange":
+                await asyncio.gather(d.run(stop_signals=[]), driver())
+                return
+            holder["mt"] = asyncio.ensure_future(src.main())
+            await driver()
+            try:
+                await holder["mt"]
+            except asyncio.CancelledError:
+                pass
+        out = "ok"
+        try:
+            t = loop.run(main(), horizon=100000, max_steps=2_000_000)
+            if t.exception() is not None:
+                out = "raised:" + type(t.exception()).__name__
+        except Exception as x:  # noqa
+            out = type(x).__name__
+        finally:
+            loop.shutdown()
     finally:
-        loop.shutdown()
         bdt.utc_now = saved
-    bars = []
-    while (e := src.pop()) is not None:
-        bars.append(e)
-    return pushed, bars, errors, out
+        for m, name, v in patched:
+            setattr(m, name, v)
+    if src is not None:
+        popped = []
+        while (e := src.pop()) is not None:
+            popped.append(e)
+        if len(popped) != len(avail) or any(a is not b for a, (_, b) in zip(popped, avail)):
+            errors.append("popped events differ from pushed events")
+            avail = [(None, e) for e in popped]
+    return pushed, avail, errors, out
 
 
-def trades_oracle(dur, flush_delay, skip_first, pushed, bars, out):
+def trades_oracle(dur, flush_delay, skip_first, pushed, avail, out):
     bad = []
     if out != "ok":
         bad.append(("trades-run", out))
     accepted = []
     last = None
     window = datetime.timedelta(seconds=dur)
+    dur_us = dur * 1_000_000
 
     def flush_time(k):
-        return (k + 1) * dur + flush_delay - 0.002  # pushes before this are certainly before the flush of window k
-    for ts, price, at in pushed:
-        k = int((ts - EPOCH) / window) if ts >= EPOCH else -1
-        inorder = (last is None or ts >= last) and k >= 0 and at < flush_time(k)
+        # loop time before which a push is certainly before the flush of window k (dispatch latency of the end-to-end
+        # driver included)
+        return (k + 1) * dur - EPOCH_TS + flush_delay - 0.05
+    first_window = int((EPOCH_TS + START_OFF) // dur)  # windows that ended before the aggregator started are never flushed
+    for ts, price, amount, at in pushed:
+        k = ts // dur_us
+        inorder = (last is None or ts >= last) and k >= first_window and at < flush_time(k)
         if last is None or ts >= last:
             last = ts
         if inorder:
-            accepted.append((k, ts, price))
-    first_window = int(START_OFF // dur)
+            accepted.append((k, ts, price, amount))
     ref = collections.OrderedDict()
-    for k, ts, price in accepted:
+    for k, ts, price, amount in accepted:
         if skip_first and k == first_window:
             continue
-        ref.setdefault(k, []).append(price)
+        ref.setdefault(k, []).append((price, amount))
     got = {}
-    for e in bars:
-        k = int((e.bar.datetime - EPOCH) / window)
+    unix0 = datetime.datetime(1970, 1, 1, tzinfo=UTC)
+    for at, e in avail:
+        k = int((e.bar.datetime - unix0) // window)
         if k in got:
             bad.append(("two-bars-one-window", f"window {k}"))
         got[k] = e
-        if e.bar.datetime != EPOCH + k * window:
+        begin = unix0 + k * window
+        if e.bar.datetime != begin:
             bad.append(("bar-begin", f"bar of window {k} begins at {e.bar.datetime}"))
-        end = EPOCH + (k + 1) * window
+        end = begin + window
         if not (end - datetime.timedelta(milliseconds=1) <= e.when <= end):
             bad.append(("bar-stamp", f"bar of window {k} stamped {e.when}, window ends {end}"))
-    for k, prices in ref.items():
+        # emitted at the end of its window, not before: the instant at which the event became available
+        if at is not None and EPOCH + datetime.timedelta(seconds=at) < end - datetime.timedelta(milliseconds=1, microseconds=10):
+            bad.append(("bar-early", f"bar of window {k} (ends {end}) was available at {EPOCH + datetime.timedelta(seconds=at)}"))
+    for k, trades in ref.items():
         if k not in got:
-            bad.append(("trade-lost", f"in-order trades of window {k} are in no bar: prices {prices}"))
+            bad.append(("trade-lost", f"in-order trades of window {k} are in no bar: (price, amount) {trades}"))
             continue
         b = got[k].bar
-        if (b.open, b.high, b.low, b.close, b.volume) != (prices[0], max(prices), min(prices), prices[-1], D(len(prices))):
-            bad.append(("bar-values", f"window {k}: bar O/H/L/C/V {(b.open, b.high, b.low, b.close, b.volume)} for trades {prices}"))
+        prices = [p for p, _ in trades]
+        if (b.open, b.high, b.low, b.close, b.volume) != (prices[0], max(prices), min(prices), prices[-1], sum(a for _, a in trades)):
+            bad.append(("bar-values", f"window {k}: bar O/H/L/C/V {(b.open, b.high, b.low, b.close, b.volume)} for trades "
+                        f"(price, amount) {trades}"))
     for k in got:
         if k not in ref:
             bad.append(("bar-without-trades", f"bar for window {k} although no in-order trade belongs to it"))
-    whens = [e.when for e in bars]
+    whens = [e.when for _, e in avail]
     if whens != sorted(whens):
         bad.append(("bars-out-of-order", f"{whens}"))
     return bad
 
 
-def run_trades_scenarios(sc, tier, res):
-    _, dur, fd, sf, a0 = sc
+def trade_sequences(sc, tier):
+    fam, via, dur, fd, sf, a0 = sc
     depth = BOUNDS[tier]["trade_depth"]
-    if tier == "quick" and (dur != 1 or fd == 0):
-        depth -= 1  # the full depth for 1-second bars with a flush delay; one step less for the other combinations
-    for n in range(1, depth + 1):
-        for tail in itertools.product(ACTS, repeat=n - 1):
-            acts = (a0,) + tail
-            pushed, bars, errors, out = run_trades(dur, fd, sf, acts)
-            res.executions += 1
-            res.transitions += n
-            res.validated += 1
-            key = h64((sc, acts))
-            res.states.add(key)
-            if bars:
-                res.nontrivial.add(key)
-            res.outcomes[f"trades:{min(len(bars), 2)} bars"] += 1
-            case = dict(kind="trades", duration=dur, flush_delay=fd, skip_first_bar=sf, steps=list(acts))
-            if not res.samples and len(bars) >= 2:
-                res.samples.append(case)
-            for clause, detail in trades_oracle(dur, fd, sf, pushed, bars, out):
-                res.violation(f"{PROPERTY}:{clause}:trades", f"{detail}; {case}", case, size=n)
+    if fam == "trades":
+        if via == "exchange":
+            depth = BOUNDS[tier]["exchange_depth"]
+        elif tier == "quick" and (dur != 1 or fd == 0 or via != "core"):
+            depth -= 1  # the full depth for 1-second bars with a flush delay; one step less for the other combinations
+        for n in range(1, depth + 1):
+            for tail in itertools.product(ACTS, repeat=n - 1):
+                yield (a0,) + tail
+    else:  # values: every price of every push
+        depth = BOUNDS[tier]["value_depth"]
+        steps = [f"{a}:{p}" for a in VAL_ACTS if a != "FLUSH" for p in PRICES] + ["FLUSH"]
+        firsts = [a0] if a0 == "FLUSH" else [f"{a0}:{p}" for p in PRICES]
+        for n in range(1, depth + 1):
+            for first in firsts:
+                for tail in itertools.product(steps, repeat=n - 1):
+                    yield (first,) + tail
+
+
+def run_trades_scenarios(sc, tier, res):
+    fam, via, dur, fd, sf, a0 = sc
+    for acts in trade_sequences(sc, tier):
+        pushed, avail, errors, out = run_trades(via, dur, fd, sf, acts)
+        n = len(acts)
+        res.executions += 1
+        res.transitions += n
+        res.validated += 1
+        key = h64((sc, acts))
+        res.states.add(key)
+        if avail:
+            res.nontrivial.add(key)
+        res.outcomes[f"{fam}:{via}:{min(len(avail), 2)} bars"] += 1
+        case = dict(kind="trades", via=via, duration=dur, flush_delay=fd, skip_first_bar=sf, steps=list(acts))
+        if not res.samples and len(avail) >= 2:
+            res.samples.append(case)
+        for clause, detail in trades_oracle(dur, fd, sf, pushed, avail, out):
+            res.violation(f"{PROPERTY}:{clause}:trades-{via}", f"{detail}; {case}", case, size=n)
+        if errors and via == "exchange" and "no live websocket" in errors:
+            res.violation(f"{PROPERTY}:harness-no-websocket:trades-{via}", f"the fake websocket was not connected; {case}", case, size=n)
 
 
 def run_scenario(sc, tier):
     res = Result()
     if sc[0] == "csv":
         run_csv(sc, tier, res)
+    elif sc[0] in ("csv-tz", "csv-periods", "csv-zero"):
+        run_csv_extra(sc, tier, res)
     elif sc[0] == "bar-ctor":
         run_bar_ctor(res)
     else:
@@ -359,17 +609,21 @@ def replay(rep):
     if rep["kind"] == "csv":
         tmpdir = tempfile.mkdtemp(prefix="c19csv")
         try:
-            bad, _ = csv_case(rep["source"], rep["encoding"], rep["sort"], [tuple(r) for r in rep["rows"]], tmpdir)
+            bad, _ = csv_case(rep["source"], rep["encoding"], rep["sort"], [tuple(r) for r in rep["rows"]], tmpdir,
+                              rep.get("tz", "utc"))
         finally:
             shutil.rmtree(tmpdir, ignore_errors=True)
         return [f"{c}: {d}" for c, d in bad]
     if rep["kind"] == "trades":
-        pushed, bars, errors, out = run_trades(rep["duration"], rep["flush_delay"], rep["skip_first_bar"], tuple(rep["steps"]))
-        for p in pushed:
-            print("  pushed", p)
-        for e in bars:
-            print("  bar", e.when, e.bar.datetime, e.bar.open, e.bar.high, e.bar.low, e.bar.close, e.bar.volume)
-        return [f"{c}: {d}" for c, d in trades_oracle(rep["duration"], rep["flush_delay"], rep["skip_first_bar"], pushed, bars, out)]
+        pushed, avail, errors, out = run_trades(rep.get("via", "core"), rep["duration"], rep["flush_delay"], rep["skip_first_bar"],
+                                                tuple(rep["steps"]))
+        for ts, price, amount, at in pushed:
+            print(f"  pushed at {at:.6f}s: trade time {datetime.datetime.fromtimestamp(ts // 1_000_000, UTC)} +{ts % 1_000_000}us "
+                  f"price {price} amount {amount}")
+        for at, e in avail:
+            print("  bar available at", at, "stamped", e.when, "begin", e.bar.datetime, "O/H/L/C/V", e.bar.open, e.bar.high,
+                  e.bar.low, e.bar.close, e.bar.volume)
+        return [f"{c}: {d}" for c, d in trades_oracle(rep["duration"], rep["flush_delay"], rep["skip_first_bar"], pushed, avail, out)]
     res = Result()
     run_bar_ctor(res)
     return [v["message"] for v in res.violations]
